@@ -107,6 +107,13 @@ func (m *MMap) ResetFileSize() error {
 	return m.file.Truncate(m.virtualSize)
 }
 
+// RestoreFileSize 将文件重新扩展到当前映射区域的大小
+// ResetFileSize 之后如果继续使用该映射, 必须先恢复文件大小, 否则访问超出文件末尾的映射页会触发 SIGBUS
+func (m *MMap) RestoreFileSize() error {
+	defer verifIO("truncate", m.file.Name(), m.endOff)()
+	return m.file.Truncate(m.endOff)
+}
+
 // 如果有必要, 扩展映射区域
 func (m *MMap) remap(newBase int64, dataSize int) error {
 	// 如果映射区域已包含所需数据, 直接返回
